@@ -73,4 +73,82 @@ def St.batchStep (st : St) (p : Path) (es : List (String × Nat)) : St × Bool :
   | some st' => (st', true)
   | none => (st, false)
 
+/-! ## the other calls that create several cells, as the code makes them today
+
+`new_cells_from_pandas` / `_csv` (since /repo 3927bad) are `St.newCellsBatch`: `_overwrite_colnames` checks every
+name in the state the call was given (valid, not given twice, `name in namespace or not _can_add`), then the
+loop creates.  The calls below are the remaining ones; the `smech` driver has a line for each. -/
+
+/-- one function of a module, checked in the state the call was given (`new_cells_from_module` since /repo
+8ba4963): a name that is a cells of the space (own or derived) is an override - its formula is set -; any other
+name in the namespace (a reference, a model-level reference, a child space) is refused; a new valid name has
+to pass `_can_add`; a name that is no valid name is not checked (the cells gets an automatic name) -/
+def St.funcOk (st : St) (p : Path) (name : String) : Bool :=
+  st.has p &&
+    (if (st.mem .cells p name).isSome then true
+     else if (st.kindOf p name).isSome then false
+     else !Names.isValidName kw name || st.canAdd p name .cells)
+
+/-- the creation / override of one function, after the check -/
+def St.putFunc (st : St) (p : Path) (e : String × Nat) : St :=
+  if (st.mem .cells p e.1).isSome then (st.setFormula p e.1 e.2).getD st
+  else (st.newCellsNamed kw p e.1 e.1 e.2).getD st
+
+/-- `new_cells_from_module` / `import_funcs`: every function checked first, then created or overridden -/
+def St.moduleBatch (st : St) (p : Path) (es : List (String × Nat)) : Option St :=
+  if nodupNames es && es.all (fun e => st.funcOk kw p e.1) then some (es.foldl (fun s e => s.putFunc kw p e) st)
+  else none
+
+def St.moduleStep (st : St) (p : Path) (es : List (String × Nat)) : St × Bool :=
+  match st.moduleBatch kw p es with
+  | some st' => (st', true)
+  | none => (st, false)
+
+/-- `new_space_from_pandas` / `_csv` (since /repo 3927bad): the names are checked first - valid, not given
+twice, not a model-level reference (all the new space will hold) -, then the space is created, then the cells -/
+def St.newSpaceBatch (st : St) (parent : Path) (name : String) (es : List (String × Nat)) : Option St :=
+  if !(nodupNames es && es.all (fun e => Names.isValidName kw e.1 && !st.globals.contains e.1)) then none
+  else
+    match st.newSpaceRefs kw parent name [] [] with
+    | none => none
+    | some st1 => st1.newCellsBatch kw (parent ++ [name]) es
+
+def St.newSpaceBatchStep (st : St) (parent : Path) (name : String) (es : List (String × Nat)) : St × Bool :=
+  match st.newSpaceBatch kw parent name es with
+  | some st' => (st', true)
+  | none => (st, false)
+
+/-- `import_module` / `new_space_from_module`, AS THE CODE IS: the space is created first, the functions of the
+module are looked at afterwards; when they are refused the call raises and the space - with what it derives
+from its bases - stays (`false` with a state that is not the one the call was given: known finding
+C11-import-module-space-first; `C11.loop_refused_halfway_differs` is the same shape for cells) -/
+def St.newSpaceModule (st : St) (parent : Path) (name : String) (bases : List Path)
+    (es : List (String × Nat)) : St × Bool :=
+  match st.newSpaceRefs kw parent name bases [] with
+  | none => (st, false)
+  | some st1 =>
+    match st1.moduleBatch kw (parent ++ [name]) es with
+    | some st2 => (st2, true)
+    | none => (st1, false)
+
+/-- `import_module` / `new_space_from_module` with the functions checked BEFORE the space is created (candidate
+repair `notes/R6C11-candidate_import_module.diff`): a function must not be named like a model-level reference
+or like a reference of one of the bases (all the new space will hold besides cells, which a function
+overrides; child spaces of a base are not derived); then the space, then the functions.  The harness asks the code which of the two it is
+(`batch_api.import_module_checks_first`) and sends this line or `spacemodule`. -/
+def St.newSpaceModuleChecked (st : St) (parent : Path) (name : String) (bases : List Path)
+    (es : List (String × Nat)) : Option St :=
+  let taken := st.globals ++ st.allNames .refs bases
+  if !(nodupNames es && es.all (fun e => !taken.contains e.1)) then none
+  else
+    match st.newSpaceRefs kw parent name bases [] with
+    | none => none
+    | some st1 => st1.moduleBatch kw (parent ++ [name]) es
+
+def St.newSpaceModuleCheckedStep (st : St) (parent : Path) (name : String) (bases : List Path)
+    (es : List (String × Nat)) : St × Bool :=
+  match st.newSpaceModuleChecked kw parent name bases es with
+  | some st' => (st', true)
+  | none => (st, false)
+
 end MxModel.SM
